@@ -8,7 +8,7 @@
 
    Encodings:  write = table * 16 + update id;   frame = table * 4096 + image (bit u = update u);
      status -> 4 bits: 0 not started, 1 blocked, 2 finished, 3 skipped (outcomes only), 301->4 302->5
-               304->6 305->7 306->8 401->9 402->10 403->11 400->14, else 15
+               304->6 305->7 306->8 401->9 402->10 403->11 404->12 400->14, else 15
      step   = thread + 4 * (outcome + 16 * (frames so far (max 15) + 16 * (st_0 + 16 * (st_1 + ...))))
      result = transaction number + 8 * (ok + 2 * frames in the WAL at the return) *)
 From Coq Require Import ZArith List Bool.
@@ -29,7 +29,7 @@ Definition sched_of (steps : list Z) : list nat := map (fun z => Z.to_nat (z mod
 
 Definition final_and_obs (c : case) : St38 * list (Z * (list Z * Z)) :=
   match c with
-  | Case progs steps _ _ _ => exec_obs38 false (sched_of steps) (init38 (to_progs progs))
+  | Case progs steps _ _ _ => exec_obs38 true (sched_of steps) (init38 (to_progs progs))
   end.
 
 Fixpoint zlist_eq (a b : list Z) : bool :=
@@ -42,7 +42,7 @@ Definition status_code (s : Z) : Z :=
   if s =? 0 then 0 else if s =? 1 then 1 else if s =? 2 then 2 else if s =? 3 then 3
   else if s =? 301 then 4 else if s =? 302 then 5 else if s =? 304 then 6 else if s =? 305 then 7
   else if s =? 306 then 8 else if s =? 401 then 9 else if s =? 402 then 10 else if s =? 403 then 11
-  else if s =? 400 then 14 else 15.
+  else if s =? 404 then 12 else if s =? 400 then 14 else 15.
 Definition cap15 (x : Z) : Z := if x <? 15 then x else 15.
 Definition enc_step (t : nat) (m : Z * (list Z * Z)) : Z :=
   match m with
@@ -106,11 +106,10 @@ Definition spec_ok (c : case) : bool :=
 
 (* finding classes, decided on the model's run of the case:
    1 = a payload was queued after a payload with a strictly newer image of one of its pages
-   2 = at COMMIT a page written by the transaction was no longer in the dirty tracker
-   3 = C37's class (an elected leader lost its own commit to another committer's take_pending) *)
+   2 = at COMMIT a page written by the transaction was no longer in the dirty tracker *)
 Definition known_class (c : case) : Z :=
   let s := fst (final_and_obs c) in
-  if inverted s then 1 else if borrowed s then 2 else if stolen (sh (base s)) then 3 else 0.
+  if inverted s then 1 else if borrowed s then 2 else 0.
 
 Fixpoint failures_from (i : Z) (cs : list case) : list (Z * bool * bool * Z) :=
   match cs with
